@@ -79,7 +79,7 @@ def stamped(case, rng, policy=None):
 class C12(Property):
     id = "C12"
     title = "Timing wheel fires every timer exactly once, at its due tick"
-    quick_cases = 420
+    quick_cases = 390
     thorough_cases = 8000
     exec_budget_s = 300      # quick tier: stop executing further generated cases after this long (see _run_chunks)
     skipped_for_time = 0
